@@ -149,16 +149,12 @@ def covN : Node → M Cov
   | n@(.goto _) => pure ⟨1, 0, n⟩
   | n@(.funcCall name _) => pure (if isAssertAssume name then ⟨0, 0, n⟩ else ⟨1, 0, n⟩)
   | n@(.assign op l r) =>
-    -- `right = rvalue.expr if Cast else rvalue`; recurse(lvalue) is an ID: nothing
-    match r with
-    | .cast e =>
-      if !(op == "=" && l.isId && allowRhs e) then pure ⟨1, 0, n⟩
-      else do let c ← covN e; pure ⟨c.up, c.inner, .assign op l (.cast c.mod)⟩
-    | e =>
-      if !(op == "=" && l.isId && allowRhs e) then pure ⟨1, 0, n⟩
-      else do let c ← covN e; pure ⟨c.up, c.inner, .assign op l c.mod⟩
+    -- `right = no_cast(rvalue)`; recurse(lvalue) is an ID: nothing; recurse(right): the casts are kept
+    -- around the (possibly edited) expression -- which is what `covN` does on a Cast node
+    if !(op == "=" && l.isId && allowRhs r.rmCast) then pure ⟨1, 0, n⟩
+    else do let c ← covN r; pure ⟨c.up, c.inner, .assign op l c.mod⟩
   | n@(.binop op l r) =>
-    pure (if Gen.binOps.contains op && allowOperand l.rmCast1 && allowOperand r.rmCast1
+    pure (if Gen.binOps.contains op && allowOperand l.rmCast && allowOperand r.rmCast
       then ⟨0, 0, n⟩ else ⟨1, 0, n⟩)
   | .cast e => do let c ← covN e; pure ⟨c.up, c.inner, .cast c.mod⟩
   | n@(.unop op e) =>
